@@ -19,6 +19,7 @@ class Proxy:
         self.term = None
         self.fail_after = None  # fault injection: raise OSError on the n-th write from now
         self.writes = 0
+        self.log = None  # when a list: every string written is appended (for the pyte cross-check)
 
     def set_size(self, h, w):
         fcntl.ioctl(self.slave, termios.TIOCSWINSZ, struct.pack("HHHH", h, w, 0, 0))
@@ -30,6 +31,8 @@ class Proxy:
             if self.fail_after < 0:
                 self.fail_after = None
                 raise OSError(5, "injected write error")
+        if self.log is not None:
+            self.log.append(s)
         self.term.feed(s)
         return len(s)
 
